@@ -70,7 +70,12 @@ def harnesses(tier, seed):
     for s in gr:
         if "stype" in s.tags or "fieldonly" in s.tags:
             continue
+        if s.name in ("L_selfref", "L_self_toml", "L_self_msgpack", "L_self_orjson"):
+            continue  # typing.Self is not supported by the schema generator at all (raises TypeError): outside C06, see C20
         for variant in variants:
+            if tier == "quick" and variant == "oapi" and not any(
+                    k in s.texpr for k in ("Mix", "Plain", "Inh", "Gen", "Al", "Two", "NT", "TDict", "OptD", "SelfRef", "Lvl")):
+                continue  # without dataclasses the OpenAPI variant differs from Draft 2020-12 only in the dialect URI
             try:
                 probe(s, variant)
                 hs.append(gen.value_harness("C06", "c06", s, variant, "Bounds(maxlen=2)"))
@@ -85,6 +90,12 @@ def run(tier, seed):
     hs, skipped = harnesses(tier, seed)
     extra = [{"name": "build:%s:%s" % (n, v), "harness": "generator", "kind": "main", "final": "harness_error", "msg": e}
              for n, v, e in skipped]
+    from vf.checks.c01 import tz_results
+    for r in tz_results():
+        if "jsonschema" in r["name"] or r["kind"] == "twin":
+            if r.get("sig"):
+                r["sig"] = "C06/timezone-pattern-rejects-tzname-text"
+            extra.append(r)
     return runner.run_property(
         "C06", hs, tier, seed, 60 if tier == "quick" else 200,
         bounds={"maxlen": 2, "schemas": len(hs), "variants": 2 if tier == "quick" else 4},
